@@ -214,3 +214,57 @@ Qed.
 
 Theorem error_cap cap steps m : Forall (fun k => k <= m) steps -> failed (parse_loop cap steps init) <= cap + m.
 Proof. intros H. apply parse_loop_cap; [exact H|simpl; lia]. Qed.
+
+(* ---------------------------------------------------------------- why the cap test must be `>=`
+   parser.c parse_compound_type: `while (P->token->id != '}') { parse_field / parse_method; if (P->failed >= FLATCC_MAX_ERRORS) goto fail; }`
+   At end of input the loop makes no token progress: next() keeps returning the EOF token and every turn reports at least one
+   diagnostic ("field expected identifier"). The error cap is the ONLY thing that ends the loop, so termination needs a test
+   that stays true once the counter has passed the cap. [ks i] = diagnostics reported in turn i (a field can report two);
+   [None] = still running when the fuel is exhausted. *)
+Fixpoint eof_loop (test : nat -> nat -> bool) (cap : nat) (ks : nat -> nat) (i fuel : nat) (s : st) : option st :=
+  match fuel with
+  | O => None
+  | S f => let s' := reports (ks i) s in
+           if test cap (failed s') then Some s' else eof_loop test cap ks (S i) f s'
+  end.
+
+Definition cap_ge (cap f : nat) : bool := cap <=? f.      (* P->failed >= FLATCC_MAX_ERRORS *)
+Definition cap_eq (cap f : nat) : bool := f =? cap.       (* P->failed == FLATCC_MAX_ERRORS : wrong *)
+
+(* with >= the measure cap - failed strictly decreases: the loop ends within cap - failed + 1 turns, whatever each turn reports *)
+Lemma eof_loop_ge_terminates cap ks : (forall i, 1 <= ks i) ->
+  forall fuel i s, 0 < fuel -> cap < failed s + fuel -> exists s', eof_loop cap_ge cap ks i fuel s = Some s' /\ cap <= failed s'.
+Proof.
+  intros Hk. induction fuel as [|f IH]; intros i s H0 Hf; [lia|]. cbn [eof_loop].
+  destruct (reports_spec (ks i) s) as (F & _). specialize (Hk i). unfold cap_ge at 1.
+  destruct (cap <=? failed (reports (ks i) s)) eqn:E.
+  - exists (reports (ks i) s). split; [reflexivity|apply Nat.leb_le; exact E].
+  - apply Nat.leb_gt in E. apply IH; lia.
+Qed.
+
+Theorem eof_loop_terminates cap ks s : (forall i, 1 <= ks i) ->
+  exists s', eof_loop cap_ge cap ks 0 (S cap) s = Some s' /\ cap <= failed s'.
+Proof. intros Hk. apply eof_loop_ge_terminates; [exact Hk|lia|lia]. Qed.
+
+(* with == the loop never ends once the counter has stepped over the cap *)
+Lemma eof_loop_eq_past cap ks : (forall i, 1 <= ks i) ->
+  forall fuel i s, cap < failed s -> eof_loop cap_eq cap ks i fuel s = None.
+Proof.
+  intros Hk. induction fuel as [|f IH]; intros i s Hs; [reflexivity|]. cbn [eof_loop].
+  destruct (reports_spec (ks i) s) as (F & _). specialize (Hk i). unfold cap_eq at 1.
+  destruct (failed (reports (ks i) s) =? cap) eqn:E; [apply Nat.eqb_eq in E; lia|]. apply IH. lia.
+Qed.
+
+(* nine earlier diagnostics, then a field that reports two (9 -> 11), then end of input inside the body *)
+Theorem eof_loop_equality_refuted :
+  exists ks s, (forall i, 1 <= ks i) /\ failed s = 9 /\ forall fuel, eof_loop cap_eq 10 ks 0 fuel s = None.
+Proof.
+  exists (fun i => match i with O => 2 | _ => 1 end), (reports 9 init). split; [intros [|i]; lia|]. split; [reflexivity|].
+  intros [|f]; [reflexivity|]. cbn [eof_loop]. destruct (reports_spec 2 (reports 9 init)) as (F & _).
+  unfold cap_eq at 1. destruct (failed (reports 2 (reports 9 init)) =? 10) eqn:E; [apply Nat.eqb_eq in E; rewrite F in E; simpl in E; lia|].
+  apply eof_loop_eq_past; [intros [|i]; lia|]. rewrite F. simpl. lia.
+Qed.
+
+(* the automaton's own cap test in [parse_loop] is the >= form *)
+Lemma parse_loop_cap_test_is_ge cap k r s : parse_loop cap (k :: r) s = if cap_ge cap (failed s) then s else parse_loop cap r (reports k s).
+Proof. reflexivity. Qed.
